@@ -55,8 +55,11 @@ func (d *delimiterCodec) HandleRead(ctx netty.InboundContext, message netty.Mess
 	readBuff := make([]byte, 0, 16)
 	tempBuff := make([]byte, 1)
 	for len(readBuff) < d.maxFrameLength {
-		// read 1 byte
-		n := utils.AssertLength(reader.Read(tempBuff[:]))
+		// read 1 byte, a reader may return the byte together with an error (io.EOF)
+		n, rerr := reader.Read(tempBuff[:])
+		if n <= 0 {
+			utils.Assert(rerr)
+		}
 
 		// append to buffer
 		readBuff = append(readBuff, tempBuff[:n]...)
@@ -73,6 +76,9 @@ func (d *delimiterCodec) HandleRead(ctx netty.InboundContext, message netty.Mess
 			ctx.HandleRead(bytes.NewReader(readBuff))
 			return
 		}
+
+		// the error that came with the byte
+		utils.Assert(rerr)
 	}
 
 	utils.Assert(fmt.Errorf("frame length too large, readBuffLength(%d) >= maxFrameLength(%d)",
